@@ -426,6 +426,9 @@ class MetadorGroup(MetadorNode):
         self._guard_path(name)
 
         node = self[name]
+        if node.name == "/":
+            # (must be refused before the metadata below it is destroyed)
+            raise ValueError("Cannot delete the root group!")
         # clean up metadata (recursively, if a group)
         node._destroy_meta()
         # kill the actual data
